@@ -33,13 +33,17 @@ def check(run, driver):
     for it in range(500 if thorough else 160):
         d = int(rng.integers(1, 6)); k = int(rng.integers(1, 9)); N = int(rng.integers(k + 2, 61 if thorough else 41))
         scale = float(10 ** rng.uniform(-1, 1))
+        if it % 6 == 4:        # data recorded in small units (micro-scale lengths in metres, currents in amperes): spacings 1e-9..1e-7
+            scale = float(10 ** rng.uniform(-7.5, -6.5))
+        elif it % 6 == 1:      # ... or in large ones
+            scale = float(10 ** rng.uniform(3, 6))
         mix = rng.standard_normal((d, d)) * 0.6 + np.eye(d)
         X = rng.standard_normal((N, d)) @ mix * scale
         if it % 5 == 2 and d >= 2:       # coordinates in very different units (spreads up to 1e4 apart)
             X = X * 10.0 ** rng.uniform(-2, 2, size=d)
         X0 = X.copy()
         h = H(X, k)
-        ref, margin, gap = ref_entropy(X, k, detail=True)
+        ref, margin, gap, smallest = ref_entropy(X, k, detail=2)
         case = {"N": N, "d": d, "k": k, "X": X0}
         total += 1
         run.case("entropy", [N, d, k, float(X[0, 0])], d >= 2 and k >= 2, sample={"N": N, "d": d, "k": k, "impl": h, "reference": ref})
@@ -49,6 +53,8 @@ def check(run, driver):
             run.prop_fail("argument modified", case, {**sig, "clause": "purity"})
         if margin < 1e-6 or gap < 1e-9:
             run.skip("ellipsoid sum within 1e-6 of the threshold / neighbour near-tie"); continue
+        if smallest < 1e-10:     # the implementation's absolute 1e-12 guards (distance, singular values) would come into play after the 0.1x rescaling below: outside "tie-free sample" in spirit, counted
+            run.skip("a k-th neighbour distance or local singular value below 1e-10 (absolute guards of the implementation)"); continue
         worst = max(worst, abs(h - ref))
         if not math.isfinite(h) or abs(h - ref) > TOL:
             run.prop_fail("geometric-kNN entropy differs from an independent evaluation of log N + log c_d + d <log rho_k> + <local ellipsoid correction>",
